@@ -30,9 +30,10 @@ def r2_emitted_code_stays(rep, fx):
     """A jump is patched with the distance to an instruction that exists at that moment.  An instruction taken back afterwards
     shifts everything behind it: code is cut back only wholesale - the roll-back of a rejected source and the purge of a meta
     block, which cut the dictionary back with it - never by a builder word that thinks one of its instructions is superfluous."""
-    from .. import awrite
+    from .. import awrite, inline
     tracked = awrite.state_tracked(fx)
-    W = awrite.all_field_writes(fx, 'state', tracked)
+    W0 = awrite.all_field_writes(fx, 'state', tracked)
+    W = inline.view_writes(fx, inline.View(fx), tracked, W0)     # private helpers count where they are called
     n = 0
     for fn, ws in sorted(W.items()):
         cuts = [w for w in ws if w['field'][0] == 'code' and w['how'].startswith('call:shrink')]
